@@ -228,6 +228,11 @@ def symbolic_for(I, frame, s, it, ordinal):
     loop = find_loop_spec(I, frame, ordinal)
     if loop is None:
         raise Unsupported("for loop %d of %s over a sequence of unknown length has no invariant" % (ordinal, frame.fi.key if frame.fi else "?"))
+    map_iter = None
+    if isinstance(it, MapIter):
+        # iterate a heap map through its key sequence
+        map_iter = it
+        it = SV(it.m.t, TSeq(it.m.ty.key or ANY, "map-keys"))
     if not (isinstance(it, SV) and isinstance(it.ty, TSeq)):
         raise Unsupported("for loop over %r" % (it,))
     name = loop_name(frame, ordinal)
@@ -244,9 +249,13 @@ def symbolic_for(I, frame, s, it, ordinal):
     for lab, f in eval_inv(I, loop, entry_heap, frame, i, it, tr_entry).items():
         ctx.assume(f)
     if ctx.branch(i < n, "loop%d-iterate" % ordinal):
-        from .builtins_ import seq_item
+        from .builtins_ import seq_item, map_get
 
-        I.assign(frame, s.target, seq_item(I, it, i))
+        elem = seq_item(I, it, i)
+        if map_iter is not None:
+            val = map_get(I, map_iter.m, elem)
+            elem = val if map_iter.mode == "values" else VTuple([elem, val])
+        I.assign(frame, s.target, elem)
         try:
             I.exec_block(frame, s.body)
         except ContinueSig:
